@@ -1066,6 +1066,41 @@ func ruleR186(c *Ctx) {
 			}
 		}
 	}
+	// guard clauses: if A(r) { continue }; if i > 0 && B(r) { continue }; return false
+	// are folded into the single test `if !(A(r) || i > 0 && B(r)) { return false }`
+	if rv != nil && flag == nil && len(rs.Body.List) >= 2 {
+		var accept ast.Expr
+		okShape := true
+		for k, st := range rs.Body.List {
+			if k == len(rs.Body.List)-1 {
+				r, ok := st.(*ast.ReturnStmt)
+				if !ok || len(r.Results) != 1 || nodeStr(c.Fset, r.Results[0]) != "false" {
+					okShape = false
+				}
+				break
+			}
+			gi, ok := st.(*ast.IfStmt)
+			if !ok || gi.Init != nil || gi.Else != nil || len(gi.Body.List) != 1 {
+				okShape = false
+				break
+			}
+			if br, ok := gi.Body.List[0].(*ast.BranchStmt); !ok || br.Tok != token.CONTINUE || br.Label != nil {
+				okShape = false
+				break
+			}
+			if accept == nil {
+				accept = gi.Cond
+			} else {
+				accept = &ast.BinaryExpr{X: accept, Op: token.LOR, Y: &ast.ParenExpr{X: gi.Cond}}
+			}
+		}
+		if okShape && accept != nil {
+			last := rs.Body.List[len(rs.Body.List)-1].(*ast.ReturnStmt)
+			rs = &ast.RangeStmt{For: rs.For, Key: rs.Key, Value: rs.Value, Tok: rs.Tok, X: rs.X, Body: &ast.BlockStmt{List: []ast.Stmt{
+				&ast.IfStmt{If: rs.Body.Pos(), Cond: &ast.UnaryExpr{Op: token.NOT, X: &ast.ParenExpr{X: accept}}, Body: &ast.BlockStmt{List: []ast.Stmt{last}}},
+			}}}
+		}
+	}
 	if rv == nil || (len(rs.Body.List) != 1 && flag == nil) {
 		c.Undecided(key, rs.Pos(), "loop body is not a single test")
 		return
@@ -1112,6 +1147,8 @@ func ruleR186(c *Ctx) {
 			assume[idx.Name+" != 0"] = !first
 			assume[idx.Name+" >= 1"] = !first
 			assume["0 < "+idx.Name] = !first
+			assume[idx.Name+" >= 0"] = true
+			assume[idx.Name+" < 0"] = false
 		}
 		if flag != nil {
 			assume[flag.Name()] = first
